@@ -522,6 +522,62 @@ pub fn rdf_scenarios(three: bool) -> Vec<Scenario<Rdf>> {
     v
 }
 
+/// RDF operation-pair matrix: every unordered pair of the public mutators (direct and transactional) and readers,
+/// all on the two triples t0 / t1 (same subject and predicate, so every index bucket is shared), on a store that
+/// already holds t0 and has a pending transactional insert of t1 (tx 9) and removal of t0 (tx 8).
+pub fn rdf_matrix_scenarios() -> Vec<Scenario<Rdf>> {
+    fn base() -> Rdf {
+        let st = RdfStore::new();
+        st.insert(tr(0));
+        st.insert_in_tx(TxId::new(9), tr(1));
+        st.remove_in_tx(TxId::new(8), tr(0));
+        Rdf { st }
+    }
+    fn show(v: Vec<Arc<Triple>>) -> String {
+        let mut t: Vec<String> = v.iter().map(|t| t.to_string()).collect();
+        t.sort();
+        format!("{t:?}")
+    }
+    let ops: Vec<(&'static str, fn(&Rdf, usize) -> String)> = vec![
+        ("insert(t0)", |o, _| format!("{}", o.st.insert(tr(0)))),
+        ("insert(t1)", |o, _| format!("{}", o.st.insert(tr(1)))),
+        ("remove(t0)", |o, _| format!("{}", o.st.remove(&tr(0)))),
+        ("remove(t1)", |o, _| format!("{}", o.st.remove(&tr(1)))),
+        ("clear()", |o, _| { o.st.clear(); "()".into() }),
+        ("commit_tx(9:+t1)", |o, _| { o.st.commit_tx(TxId::new(9)); "()".into() }),
+        ("commit_tx(8:-t0)", |o, _| { o.st.commit_tx(TxId::new(8)); "()".into() }),
+        ("rollback_tx(9)", |o, _| { o.st.rollback_tx(TxId::new(9)); "()".into() }),
+        ("insert_in_tx(9,t0)", |o, _| { o.st.insert_in_tx(TxId::new(9), tr(0)); "()".into() }),
+        ("read:len", |o, _| format!("{}", o.st.len())),
+        ("read:contains(t0)", |o, _| format!("{}", o.st.contains(&tr(0)))),
+        ("read:find(subject)", |o, _| show(o.st.find(&TriplePattern { subject: Some(Term::iri("http://ex/a")), predicate: None, object: None }))),
+        ("read:find(object-y)", |o, _| show(o.st.find(&TriplePattern { subject: None, predicate: None, object: Some(Term::literal("y")) }))),
+        ("read:triples_with_predicate", |o, _| show(o.st.triples_with_predicate(&Term::iri("http://ex/p")))),
+        ("read:stats", |o, _| { let s = o.st.stats(); format!("{}/{}/{}/{}", s.triple_count, s.subject_count, s.predicate_count, s.object_count) }),
+    ];
+    let mut v = vec![];
+    for i in 0..ops.len() {
+        for j in i..ops.len() {
+            let (a, b) = (&ops[i], &ops[j]);
+            if a.0.starts_with("read:") && b.0.starts_with("read:") {
+                continue;
+            }
+            let name: &'static str = Box::leak(format!("MR:{}||{}", a.0, b.0).into_boxed_str());
+            let bname: &'static str = if i == j { Box::leak(format!("{}'", b.0).into_boxed_str()) } else { b.0 };
+            v.push(Scenario {
+                name,
+                what: "RDF operation-pair matrix on two triples sharing subject and predicate: linearizable, every index agrees with the primary set, no panic, no deadlock",
+                make: base,
+                threads: vec![vec![Op { name: a.0, f: a.1 }], vec![Op { name: bname, f: b.1 }]],
+                observe: rdf_observe,
+                invariants: rdf_invariants,
+                linearizable: true,
+            });
+        }
+    }
+    v
+}
+
 // ---------------------------------------------------------------------------
 // Transaction manager scenarios (S7; threaded layer of C03/C04)
 // ---------------------------------------------------------------------------
